@@ -141,7 +141,7 @@ def check_reverse(asm, acc, h):
         core.add_sample(acc, {'halfword': '%#06x' % h, 'canonical_text': text, 'assembled': o.out.hex() if o.ok else None})
 
 
-def text_forward(asm, acc, m, tup, alias=False):
+def text_forward(asm, acc, m, tup, alias=False, expr=False):
     """the same tuple through a one-line program; registers/ints rendered as given (alias: register operands named through
     register-alias constants, `RA8 = x8`, which sends the item through the alias-resolution pass)"""
     ops = [str(a) for a in tup]
@@ -152,20 +152,29 @@ def text_forward(asm, acc, m, tup, alias=False):
             if not isinstance(kind, tuple) and kind not in ('cupper', 'nzshamt') and isinstance(a, int) and 0 <= a <= 31:
                 pre += 'RA%d_%d = %s\n' % (a, k, ['x%d' % a, operands.ABI[a], str(a)][(a + k) % 3])
                 ops[k] = 'RA%d_%d' % (a, k)
+    if expr and m not in ('c.j', 'c.jal', 'c.beqz', 'c.bnez'):
+        # (a lone token that is not a number in a pc-relative position names a location, so those keep literals)
+        # integer operands written as expressions with the same value (`17 // 4`, `36 - 32`, `~-5`)
+        from ..gen import exprs
+        rng = random.Random('c02-expr-%s-%r' % (m, tup))
+        for k, (kind, a) in enumerate(zip(operands.FORMATS[m], tup)):
+            if (isinstance(kind, tuple) or kind in ('cupper', 'nzshamt')) and isinstance(a, int):
+                ops[k] = exprs.spell_value(rng, a)
+                acc['ctr']['text_expression_operands'] += 1
     line = m + (' ' + ', '.join(ops) if ops else '')
     acc['n'] += 1
     o = monitors.observe(asm, pre + line, tap=False)
     st, exp = operands.expected(m, tup)
     if not o.ok:
         if st == operands.ACCEPT:
-            core.add_viol(acc, 'legal line %r is refused (%s: %s)' % (line, o.exc['type'], o.exc['msg']), {'kind': 'fwdtext', 'm': m, 'args': list(tup)}, {})
+            core.add_viol(acc, 'legal line %r is refused (%s: %s)' % (line, o.exc['type'], o.exc['msg']), {'kind': 'fwdtext', 'm': m, 'args': list(tup), 'alias': alias, 'expr': expr}, {})
         return
     acc['nt'] += 1
     acc['ctr']['text_accepted:' + m] += 1
     dec = monitors.decode_any(m, int.from_bytes(o.out, 'little')) if len(o.out) == 2 else ('%d bytes' % len(o.out), o.out.hex())
     if st == operands.REJECT or dec != exp:
         core.add_viol(acc, 'line %r assembles to %s which decodes to %r; the line named %s' % (line, o.out.hex(), dec, exp if st != operands.REJECT else 'something not representable'),
-                      {'kind': 'fwdtext', 'm': m, 'args': list(tup)}, {'status': st})
+                      {'kind': 'fwdtext', 'm': m, 'args': list(tup), 'alias': alias, 'expr': expr}, {'status': st})
 
 
 def label_case(asm, acc, seed, idx):
@@ -226,7 +235,7 @@ def run_shard(sh, deadline):
         if sh['tier'] == 'quick' and len(all_t) > 1500:
             all_t = rng.sample(all_t, 1500)
         for k, tup in enumerate(all_t):
-            text_forward(asm, acc, m, tup, alias=(k % 3 == 2))
+            text_forward(asm, acc, m, tup, alias=(k % 3 == 2), expr=(k % 3 == 1))
             if time.time() > deadline:
                 acc['truncated'] += 1
                 break
@@ -280,7 +289,7 @@ def replay(case):
     elif case['kind'] == 'fwd':
         check_forward(asm, acc, case['m'], case['args'])
     elif case['kind'] == 'fwdtext':
-        text_forward(asm, acc, case['m'], case['args'])
+        text_forward(asm, acc, case['m'], case['args'], alias=case.get('alias', False), expr=case.get('expr', False))
     else:
         check_reverse(asm, acc, case['h'])
     return acc
